@@ -85,6 +85,14 @@ def run_scenario(chk, sc, cfgseed, as_string=False, flavour="sched", workers=Non
     from amr_kitchen.taste import Taster
     rng = random.Random(cfgseed)
     cfg_ = gamma.Config.draw(rng, ndims=3, payload=rng.choice(["wild", "tame"]))
+    # concrete field names (prefix pairs, parentheses; with a blank only when the selections are given as lists: the string form
+    # is split at blanks and commas); a name the two inputs share stays shared
+    allnames = list(sc["f1"]) + [n for n in sc["f2"] if n not in sc["f1"]]
+    nm = gamma.names_map(cfgseed, allnames, blanks=not as_string)
+    ren = lambda names: [n if n == "None" else nm[n] for n in names]
+    exp0 = sc["expect"]
+    sc = dict(sc, f1=ren(sc["f1"]), f2=ren(sc["f2"]), v1=ren(sc["v1"]), v2=ren(sc["v2"]),
+              expect=(dict(exp0, fields=ren(exp0["fields"])) if exp0.get("k") == "ok" else exp0))
     ap1, ap2 = build_pair(sc)
     d = chk.tmp()
     os.makedirs(d)
